@@ -9,6 +9,7 @@ from . import vmcommon as vc
 
 sys.path.insert(0, os.path.join(core.VERIF, 'gen'))
 import cfggen  # noqa: E402
+from . import cfgtext  # noqa: E402
 
 
 def make_line(cid, texts, ser, qser):
@@ -72,10 +73,14 @@ def run(ctx):
                 rep.violation('correspondence', {'property': 'C15', 'kind': 'model-vs-implementation', 'seed': ctx.seed, 'case': c['id'],
                                                  'texts': c['texts'], 'queries': c['qser'], 'implementation': (got or '')[:3000],
                                                  'model': (model.get(c['id']) or '')[:3000], 'line': c['line']})
-    cov = {'evaluations': len(cases), 'queries': nq, 'distinct_nontrivial': len(distinct),
+    texts = []
+    for c in cases[:400]:
+        texts.extend(c['texts'])
+    ctcov = cfgtext.explore(ctx, rep, 'C15', 2500 if quick else 50000, extra_texts=texts)
+    cov = {'evaluations': len(cases) + ctcov['config_texts'], 'queries': nq, 'config_text_front_end': ctcov, 'distinct_nontrivial': len(distinct),
            'rule': 'one to three config texts per case generated from an AST (nested classes to depth 3, base classes chosen from a small name pool so that undefined, self, forward and cyclic bases occur, forward declarations, re-opened classes, delete of fields and classes, scalar/string/bare-text fields, nested arrays, +=) loaded in order into one VM, followed by 8-15 queries (paths of >>, select, inheritsFrom ending in getNumber/getText/getArray/isNumber/isText/isArray/isClass/isNull/configName/count/configHierarchy/configClasses or the config itself); the implementation parses the text, the Lean model receives the AST; oracle: a Python reference with classes as objects (dictionary of entries, base, enclosing class); values compared with the reference, values and diagnostic codes with the model; distinct by case line',
            'samples': samples, 'oracle_failures': n_or, 'model_mismatches': n_mm, 'generator_counts': g.stats}
-    return rep.finish(cov, ['the config text parser itself is not modelled (the model consumes the AST); it is tied through the results only',
+    return rep.finish(cov, ['the config text parser is modelled (SqfModel/CfgText.lean: tokenizer and the shift-preferring reading of the grammar) and compared tree for tree with the Bison parser of the current tree; the tree model (Config.lean) consumes the tree the generator built the text from',
                             'block comments are not generated: the config tokenizer leaves the closing */ behind (comments are normally removed by the preprocessor)',
                             'names are compared case-sensitively, as the implementation does',
                             'configProperties is not covered (its inherited mode is exercised by C09)'])
